@@ -1,0 +1,33 @@
+//go:build verif
+
+package twofish
+
+// Contracts for govc (/verif). Comments only. C12 (part): NewCipher accepts exactly 16-, 24- and 32-byte
+// keys and its key schedule indexes the key, the S words and the tables in range for each of them; the
+// field multiplications and rotations are not interpreted.
+
+//@ func gfMult
+//@ trusted
+//@ note multiplication in GF(2^8): not verified
+//@ pure
+
+//@ func mdsColumnMult
+//@ trusted
+//@ note one column of the MDS matrix: not verified
+//@ pure
+
+//@ func h
+//@ props C12
+//@ requires len(in) >= 4 && (offset == 0 || offset == 1) && (len(key) == 16 || len(key) == 24 || len(key) == 32)
+//@ canary ensures result == 0
+
+//@ func NewCipher
+//@ props C12
+//@ modifies heap
+//@ ensures iff(result1 == nil, len(key) == 16 || len(key) == 24 || len(key) == 32) && iff(result0 != nil, result1 == nil)
+//@ loop 1 invariant 0 <= i && i <= k && (k == 2 || k == 3 || k == 4) && len(key) == 8 * k
+//@ loop 4 invariant 0 <= i && i <= 20 && c != nil && (len(key) == 16 || len(key) == 24 || len(key) == 32)
+//@ loop 7 invariant -1 <= rangeindex && rangeindex < 256 && c != nil
+//@ loop 8 invariant -1 <= rangeindex && rangeindex < 256 && c != nil
+//@ loop 9 invariant -1 <= rangeindex && rangeindex < 256 && c != nil
+//@ canary ensures result1 != nil
